@@ -315,3 +315,14 @@ int vrt_fd_count(void) { int n = count_dir("/proc/self/fd"); return n > 0 ? n - 
 
 /* used by verif_wrap_lacon.c */
 void vrt_emit(const char *name, int p, int nargs, const long *args) { if (LOG_ON) emit(name, p, nargs, args, 0, 0); }
+void vrt_emit_list(const char *name, int p, int nargs, const long *args, const long *list, long nlist)
+{
+    long s, i; ev_t *x;
+    if (!LOG_ON) return;
+    s = atomic_fetch_add(&SEQ, 1);
+    if (s >= EVCAP) { atomic_store(&OVER, 1); return; }
+    x = &EV[s]; x->name = name; x->p = p; x->raw = 0; x->nargs = nargs > MAXARGS ? MAXARGS : nargs;
+    for (i = 0; i < x->nargs; ++i) x->a[i] = args[i];
+    x->nlist = (int) nlist; x->l = 0;
+    if (nlist > 0) { x->l = (long *) r_malloc(nlist * sizeof(long)); for (i = 0; i < nlist; ++i) x->l[i] = list[i]; }
+}
